@@ -88,6 +88,93 @@ def impl(stage, f):
         raise ImplRaised(stage, e)
 
 
+class NotAvailable(Exception):
+    """Nothing the property speaks about can be observed for this case in this implementation (the package could
+    not be built through the builder API, a default configuration that cannot be encoded offline ...): the case
+    is skipped (CSkip), visibly in the evidence's input distribution, never a verdict."""
+
+
+def outside(stage, f):
+    """Runs a step that is NOT an envelope operation (building / changing the package with the builder API):
+    a failure there is not this property's business."""
+    try:
+        return f()
+    except Exception as e:
+        raise NotAvailable("%s raised %s" % (stage, type(e).__name__))
+
+
+MAGIC = b"HUGRiHJv"                    # the documented magic number (coq/model/Envelope.v: MAGIC)
+
+
+def json_config(z):
+    from hugr.envelope import EnvelopeConfig, EnvelopeFormat
+    return EnvelopeConfig(format=EnvelopeFormat.JSON, zstd=z)
+
+
+def default_config(how):
+    """The configuration Package.to_bytes() / to_str() use when none is given, read from the public presets
+    EnvelopeConfig.BINARY / TEXT: (format name, zstd) or None when it cannot be read.  The property prescribes no
+    default; this is only used to decide whether a default call that RAISED was a JSON configuration (then it
+    is judged like any other) or something that cannot be encoded here (then: not available)."""
+    try:
+        from hugr.envelope import EnvelopeConfig
+        c = EnvelopeConfig.TEXT if how == "str" else EnvelopeConfig.BINARY
+        return (c.format.name, c.zstd)
+    except Exception:
+        return None
+
+
+def default_judged(how):
+    """Is a default call that raised judged as a failure?  Only when the preset is known to be a JSON
+    configuration (for text: an uncompressed one — no text encoding of a compressed envelope exists)."""
+    dc = default_config(how)
+    return dc is not None and dc[0] == "JSON" and (how != "str" or dc[1] is None)
+
+
+class native_stand_in:
+    """The formats MODULE / MODULE_WITH_EXTS are written by the native module hugr._hugr, which cannot be built
+    here.  While `to_str` is observed for such a format a stand-in for its binary package encoder is installed
+    (only if the real one is absent; removed afterwards), so that an implementation that OFFERS text encoding for
+    a format that is not ASCII-printable returns a string instead of failing on the missing module.  If the
+    stand-in cannot be installed (module layout changed) nothing happens: the call then fails on the way and is
+    counted as "no text encoding", which can only make the check more lenient, never alarm."""
+    def __init__(self, wanted):
+        self.wanted, self.mod = wanted, None
+
+    def __enter__(self):
+        if self.wanted:
+            try:
+                import importlib
+                mod = importlib.import_module("hugr._hugr")
+                if not hasattr(mod, "package_to_bytes"):
+                    mod.package_to_bytes = lambda package: b"stand-in for the capnp bytes"
+                    self.mod = mod
+            except Exception:
+                self.mod = None
+        return self
+
+    def __exit__(self, *a):
+        if self.mod is not None:
+            try:
+                del self.mod.package_to_bytes
+            except Exception:
+                pass
+        return False
+
+
+def set_zstd(cfg, z):
+    """One configuration object changed IN PLACE between two uses.  An implementation whose configurations
+    refuse assignment (frozen dataclass, read-only property ...) does not have this kind of change: a changed
+    configuration is then a new object (what dataclasses.replace / the constructor give)."""
+    try:
+        cfg.zstd = z
+        if cfg.zstd == z:
+            return cfg
+    except Exception:
+        pass
+    return json_config(z)
+
+
 def fresh_module(tag):
     from hugr import tys
     from hugr.build.function import Module
@@ -164,37 +251,52 @@ def run_history(spec, steps, encode=True):
     With encode=False the encodings are skipped (a fresh, never-encoded object with the same contents).
     Returns (package, result of the last encoding or None)."""
     import warnings
-    from hugr.envelope import EnvelopeConfig, EnvelopeFormat
-    pkg = impl("build", lambda: build_package(spec))
-    shared = EnvelopeConfig(format=EnvelopeFormat.JSON, zstd=None)
+    pkg = outside("build", lambda: build_package(spec))
+    shared = json_config(None)
     out = None
     for k, st in enumerate(steps):
         if st[0] == "mut":
-            impl("mutate", lambda: apply_mut(pkg, st[1:], k))
+            outside("mutate", lambda: apply_mut(pkg, st[1:], k))
             continue
         if not encode:
             continue
         _, how, mode, z = st
         if mode == "shared":
-            shared.zstd = z
+            shared = set_zstd(shared, z)
             cfg = (shared,)
         elif mode == "default":
             cfg = ()
         else:
-            cfg = (EnvelopeConfig(format=EnvelopeFormat.JSON, zstd=z),)
-        if how == "bytes":
-            out = impl("to_bytes", lambda: pkg.to_bytes(*cfg))
-        elif how == "str":
-            out = impl("to_str", lambda: pkg.to_str(*cfg))
-        else:                           # deprecated to_json: not an envelope, only primes whatever is cached
-            with warnings.catch_warnings():
-                warnings.simplefilter("ignore")
-                impl("to_json", lambda: pkg.to_json())
+            cfg = (json_config(z),)
+        if how == "json":               # deprecated to_json: not an envelope, only primes whatever is cached
+            try:
+                with warnings.catch_warnings():
+                    warnings.simplefilter("ignore")
+                    pkg.to_json()
+            except Exception:           # not part of the property (it may be removed): no verdict
+                pass
+            continue
+        out = None
+        try:
+            out = impl("to_" + how, lambda: (pkg.to_bytes if how == "bytes" else pkg.to_str)(*cfg))
+        except ImplRaised:
+            # a default configuration that is not (known to be) a JSON one cannot be encoded offline (native
+            # module absent): that step is not available; an explicit JSON configuration that raises is judged
+            if mode != "default" or default_judged(how):
+                raise
     return pkg, out
 
 
-def step_zstd(st):
-    return None if st[2] == "default" or st[1] != "bytes" else st[3]
+def step_zstd(st, env=None):
+    """The compression of the configuration an encoding step used.  With an explicit configuration: its zstd
+    field.  With NO configuration argument the property prescribes no default (EnvelopeConfig.BINARY / TEXT may
+    be any configuration): the envelope itself says which was used — bit 0 of its flags byte — and header and
+    payload are judged against that (level 0 stands for "some level")."""
+    if st[2] == "default":
+        if env is not None and len(env) >= 10 and env[9] & 1:
+            return 0
+        return None
+    return None if st[1] != "bytes" else st[3]
 
 
 def norm_steps(steps):
@@ -289,19 +391,48 @@ def canon_ext_doc(js):
     import json
     try:
         d = json.loads(js)
+    except Exception:                      # not JSON: compared as written
+        return js
+    try:
         d["runtime_reqs"] = sorted(d["runtime_reqs"])
         for o in d["operations"].values():
             if o.get("signature") is not None:
                 b = o["signature"]["body"]
                 b["runtime_reqs"] = sorted(b["runtime_reqs"])
-        return json.dumps(d, ensure_ascii=False)
-    except Exception:                      # not the expected shape: compared as written
+    except Exception:                      # not the expected shape: no array is treated as a set
+        d = json.loads(js)
+    return canon_doc(d)
+
+
+def canon_doc(d):
+    """A JSON document as compared by this check: the VALUE (objects up to the order of their keys, arrays in
+    order, numbers and strings as written), not the text — whitespace, separators and key order are not part of
+    a document."""
+    import json
+    return json.dumps(d, ensure_ascii=False, sort_keys=True)
+
+
+def canon_mod_doc(js):
+    import json
+    try:
+        return canon_doc(json.loads(js))
+    except Exception:
         return js
 
 
 def docs(pkg):
-    return ([m._to_serial().model_dump_json() for m in pkg.modules],
-            [canon_ext_doc(e._to_serial().model_dump_json()) for e in pkg.extensions])
+    """The documents the modules and extensions of a package serialise to, in order, through the PUBLIC
+    serialisers Hugr.to_json / Extension.to_json."""
+    return ([canon_mod_doc(m.to_json()) for m in pkg.modules],
+            [canon_ext_doc(e.to_json()) for e in pkg.extensions])
+
+
+def ref_payload(pkg):
+    """DIAGNOSTICS only: the payload text of the reference serialiser (private API; None when unavailable)."""
+    try:
+        return pkg._to_serial().model_dump_json().encode("utf-8")
+    except Exception:
+        return None
 
 
 def rand_spec(rng):
@@ -397,6 +528,8 @@ def drift(env, payload, z):
     import pyzstd
     body = bytes(env[10:])
     out = {}
+    if payload is None:
+        return out
     try:
         out["ref_text"] = (body if z is None else pyzstd.decompress(body)) == payload
     except Exception:
@@ -410,15 +543,14 @@ def drift(env, payload, z):
 
 
 def classify(f, pkg_docs):
+    """Outcome of a decoding: ok_same / ok_diff (documents compared), or the exception: "ValueError" for ANY
+    instance of ValueError (the property promises the class ValueError; subclasses such as UnicodeDecodeError or
+    pydantic's ValidationError are instances of it), "ZstdError", "Other:<class>" otherwise.  Apart from
+    ValueError on input the header decoder must reject, exception classes are not part of any verdict."""
     import pyzstd
     try:
         p = f()
-    except ValueError as e:
-        import pydantic
-        if isinstance(e, pydantic.ValidationError):
-            return "DecodeError"
-        if isinstance(e, UnicodeDecodeError):
-            return "DecodeError"
+    except ValueError:
         return "ValueError"
     except pyzstd.ZstdError:
         return "ZstdError"
@@ -451,7 +583,9 @@ class C09(fw.Prop):
             "definitions with signature only / binary only / both, descriptions, misc JSON, values, requirement "
             "sets, pre-release and build versions; plus lowering functions) and builder-program modules through "
             "make / read (uncompressed and compressed) / readstr / damaged envelope / history; documents compared "
-            "with the two set-valued requirement arrays sorted.  non-trivial = compressed, non-ASCII, empty "
+            "as JSON values with the two set-valued requirement arrays sorted; a call without configuration is judged "
+            "against the configuration its envelope announces; to_str of the binary formats with a stand-in for the "
+            "absent native encoder.  non-trivial = compressed, non-ASCII, empty "
             "package, malformed input, a history, or a rich package.  Outside the case stream (extra, judged by "
             "run.C09RustRun.rok in Coq): the constants scanned from header.rs and imported from hugr.envelope "
             "against the model's (8 checks = the constants theorems); EnvelopeHeader.from_bytes on the documented "
@@ -497,6 +631,14 @@ class C09(fw.Prop):
                                                          ["enc", "str", "default", None]]})
         cs.append({"kind": "seq", "spec": empty, "steps": [["enc", "bytes", "shared", None], ["mut", "appext", 0],
                                                            ["enc", "bytes", "shared", 0]]})
+        # (harmless-change round) no default configuration is prescribed: a call without configuration is judged
+        # against what its envelope announces; a shared configuration object changed in place (or replaced, where
+        # the implementation refuses assignment); text encoding is not offered for the binary formats (C09-e)
+        cs.append({"kind": "seq", "spec": one, "steps": [["enc", "bytes", "default", None]]})
+        cs.append({"kind": "seq", "spec": one, "steps": [["enc", "bytes", "shared", 0], ["enc", "bytes", "shared", None]]})
+        cs.append({"kind": "str", "spec": empty, "fmt": "MODULE", "zstd": None})
+        cs.append({"kind": "str", "spec": one, "fmt": "MODULE_WITH_EXTS", "zstd": None})
+        cs.append({"kind": "str", "spec": one, "fmt": "JSON", "zstd": 0})
         # payloads zstd cannot shrink; Latin-1 / non-BMP text
         cs.append({"kind": "read", "spec": empty, "zstd": 0, "mut": ["none"]})
         cs.append({"kind": "read", "spec": {"modules": [["café"]], "exts": []}, "zstd": None, "mut": ["none"]})
@@ -544,7 +686,10 @@ class C09(fw.Prop):
                                     ["byte", 9, rng.randint(0, 255)], ["flipz"], ["garbage", rng.randint(0, 30)]])
                     cases.append({"kind": "read", "spec": sp, "zstd": lvl, "mut": m})
             for f in ("JSON", "MODULE", "MODULE_WITH_EXTS"):
-                cases.append({"kind": "str", "spec": sp, "fmt": f, "zstd": rng.choice(levels)})
+                lvl = rng.choice(levels)
+                if f != "JSON" and i % 2 == 0:     # uncompressed: what an offered text encoding would return
+                    lvl = None
+                cases.append({"kind": "str", "spec": sp, "fmt": f, "zstd": lvl})
             if i < 6 or rng.random() < 0.1:
                 cases.append({"kind": "trunc", "spec": sp, "zstd": rng.choice(levels)})
         # (round 2) every truncation 0 .. header + 4 of valid envelopes, through every decoder: Package.from_bytes
@@ -594,14 +739,18 @@ class C09(fw.Prop):
             return self.observe_inner(case, ctx)
         except ImplRaised as e:
             return {"raised": e.cls, "stage": e.stage}
+        except NotAvailable as e:
+            return {"skip": True, "why": str(e)}
 
     @staticmethod
     def oracle_obs(env, d):
         """The oracles' answers for the byte string `env`: does pyzstd decompress what follows the header; does
-        the JSON codec read those bytes as they are (pp) / decompressed (pd) as a package with documents `d`."""
+        the JSON codec read those bytes as they are (pp) / decompressed (pd) as a package with documents `d`.
+        The codec is reached through the public decoder: the bytes behind a header written by the harness
+        (magic, JSON, flags 0x40: "uncompressed JSON payload follows")."""
         import pyzstd
-        import hugr._serialization.extension as ext_s
-        body = env[10:]
+        from hugr.package import Package
+        body = bytes(env[10:])
         try:
             dec = pyzstd.decompress(body)
         except Exception:
@@ -611,7 +760,7 @@ class C09(fw.Prop):
             if b is None:
                 return None
             try:
-                p = ext_s.Package.model_validate_json(b).deserialize()
+                p = Package.from_bytes(MAGIC + bytes([63, 0x40]) + b)
                 return docs(p) == d
             except Exception:
                 return None
@@ -625,64 +774,76 @@ class C09(fw.Prop):
         return r
 
     def observe_inner(self, case, ctx):
-        import pyzstd
-        from hugr.envelope import EnvelopeConfig, EnvelopeFormat, EnvelopeHeader, MAGIC_NUMBERS
+        from hugr.envelope import EnvelopeConfig, EnvelopeFormat, EnvelopeHeader
         from hugr.package import Package
         k = case["kind"]
         if k == "sweep":
-            acc, nve, nother = [], 0, 0
+            acc, nve, others = [], 0, []
             for fb in range(256):
                 for fl in range(256):
                     try:
-                        h = EnvelopeHeader.from_bytes(MAGIC_NUMBERS + bytes([fb, fl]))
+                        h = EnvelopeHeader.from_bytes(MAGIC + bytes([fb, fl]))
                         acc.append([fb, fl, h.format.value, bool(h.zstd)])
                     except ValueError:
                         nve += 1
-                    except Exception:
-                        nother += 1
-            return {"accepted": acc, "nve": nve, "nother": nother}
+                    except Exception as e:
+                        others.append([fb, fl, type(e).__name__])
+            # diagnostic, no verdict: the model accepts every (known format, any flags) pair
+            return {"accepted": acc, "nve": nve, "others": others,
+                    "drift": {"sweep_768": len(acc) == 768 and not others}}
         if k == "seq":
             steps = case["steps"]
             last = steps[-1]
             assert last[0] == "enc" and last[1] in ("bytes", "str"), steps
             pkg, out = run_history(case["spec"], steps)
+            if out is None:                 # the last encoding (no config argument) is not available here
+                raise NotAvailable("default configuration %r cannot be encoded" % (default_config(last[1]),))
             # the reference: a fresh object with the same contents that was never encoded
             twin, _ = run_history(case["spec"], steps, encode=False)
             d = impl("twin", lambda: docs(twin))
-            payload = impl("twin", lambda: twin._to_serial().model_dump_json().encode("utf-8"))
-            z = step_zstd(last)
             if last[1] == "str":
-                assert isinstance(out, str)
                 env = out.encode("utf-8")
                 r = self.read_obs(env, d, lambda: Package.from_str(out))
             else:
                 env = bytes(out)
                 r = self.read_obs(env, d, lambda: Package.from_bytes(env))
-            r.update({"envelope": list(env), "drift": drift(env, payload, z)})
+            z = step_zstd(last, env)
+            dr = drift(env, ref_payload(twin), z)
+            if last[2] == "default":        # diagnostic: the preset read from EnvelopeConfig agrees with the header
+                dc = default_config(last[1])
+                dr["default_preset"] = dc is not None and dc[0] == "JSON" and (dc[1] is not None) == (z is not None)
+            r.update({"envelope": list(env), "zstd_used": z, "drift": dr})
             return r
-        pkg = impl("build", lambda: build_package(case["spec"]))
-        d = docs(pkg)
-        cfg = EnvelopeConfig(format=EnvelopeFormat.JSON, zstd=case.get("zstd"))
+        pkg = outside("build", lambda: build_package(case["spec"]))
+        d = impl("docs", lambda: docs(pkg))
+        cfg = json_config(case.get("zstd"))
         if k == "make":
-            payload = pkg._to_serial().model_dump_json().encode("utf-8")
             env = impl("to_bytes", lambda: pkg.to_bytes(cfg))
             r = self.oracle_obs(env, d)
-            r.update({"envelope": list(env), "drift": drift(env, payload, cfg.zstd)})
+            r.update({"envelope": list(env), "drift": drift(env, ref_payload(pkg), case.get("zstd"))})
             return r
         if k == "str":
             cfg = EnvelopeConfig(format=EnvelopeFormat[case["fmt"]], zstd=case["zstd"])
-            utf8 = True
-            if case["fmt"] == "JSON":
-                raw = impl("to_bytes", lambda: pkg.to_bytes(cfg))
-                try:
-                    raw.decode("utf-8")
-                except UnicodeDecodeError:
-                    utf8 = False
-            def f():
-                s = pkg.to_str(cfg)
-                assert s == pkg.to_bytes(cfg).decode("utf-8")
-                return pkg
-            return {"utf8": utf8, "obs": classify(f, d)}
+            # stage 1: to_str.  Raising = no text encoding (class recorded, prescribed nowhere).  The formats
+            # that are not ASCII-printable need the native module, absent here: a stand-in for its binary
+            # encoder is installed for the call, so that "refused" and "crashed on the way" can be told apart
+            try:
+                with native_stand_in(case["fmt"] != "JSON"):
+                    s = pkg.to_str(cfg)
+            except ValueError:
+                return {"obs": "ValueError"}
+            except Exception as e:
+                return {"obs": "Other:" + type(e).__name__}
+            if not isinstance(s, str):
+                return {"obs": "Other:not-a-string"}
+            # stage 2: a string came back: it is an encoding, and decodes to the same documents
+            o = classify(lambda: Package.from_str(s), d)
+            dr = {}
+            try:
+                dr["str_is_bytes"] = s == pkg.to_bytes(cfg).decode("utf-8")
+            except Exception:
+                pass
+            return {"obs": "ok_same" if o == "ok_same" else "ok_diff", "decoded": o, "drift": dr}
         if k == "readstr":
             if cfg.zstd is not None:
                 return {"skip": True}
@@ -727,31 +888,43 @@ class C09(fw.Prop):
         gob = lambda x: gopt(None if x is None else gbool(x))
         if "raised" in obs:
             return gapp("CRaised", gout("Other:" + obs["raised"]))
+        if obs.get("skip"):
+            return "CSkip"
         if k == "sweep":
-            return gapp("CSweep", glist(gpair(gN(a), gN(b), gpair(gN(c), gbool(z))) for a, b, c, z in obs["accepted"]),
-                        gN(obs["nve"]), gN(obs["nother"]))
+            # at most 3 * 256 = 768 pairs have a known format byte: a longer list of accepted pairs (or of pairs
+            # with another exception class) already contains an unknown format byte.  Such a list is cut to its
+            # first 800 entries (a literal of 65536 entries takes coqc > 15 min); the cut list still fails the
+            # monitor (the counts no longer add up to 65536), a list that passes is never cut
+            cut = 800
+            return gapp("CSweep", glist(gpair(gN(a), gN(b), gpair(gN(c), gbool(z))) for a, b, c, z in obs["accepted"][:cut]),
+                        glist(gpair(gN(a), gN(b)) for a, b, _ in obs["others"][:cut]), gN(obs["nve"]))
         if k == "make":
             return gapp("CMake", gz(case["zstd"]), gbytes(obs["envelope"]), gbool(obs["dec_ok"]), gob(obs["pp"]), gob(obs["pd"]))
         if k == "str":
-            return gapp("CStr", case["fmt"], gz(case["zstd"]), gbool(obs["utf8"]), gout(obs["obs"]))
+            return gapp("CStr", case["fmt"], gz(case["zstd"]), gout(obs["obs"]))
         if k == "trunc":
             return gapp("CTrunc", gbytes(obs["envelope"]), glist(gnat(n) for n in obs["lens"]),
                         glist(gnat(n) for n, _ in obs["others"]), gnat(obs["nve"]))
         if k == "readstr":
-            if obs.get("skip"):
-                return gapp("CStr", "JSON", "None", "true", "(OOk true)")
             return gapp("CRead", gbool(case.get("mut", ["none"])[0] == "none"), gbytes(obs["input"]),
                         gbool(obs["dec_ok"]), gob(obs["pp"]), gob(obs["pd"]), gout(obs["obs"]))
         if k == "read":
             return gapp("CRead", gbool(case["mut"][0] == "none"), gbytes(obs["input"]), gbool(obs["dec_ok"]),
                         gob(obs["pp"]), gob(obs["pd"]), gout(obs["obs"]))
         if k == "seq":
-            hist = glist("HMut" if st[0] == "mut" else gapp("HEnc", gbool(st[1] == "str"), gz(step_zstd(st)))
-                         for st in case["steps"] if st[0] == "mut" or st[1] in ("bytes", "str"))
+            # the configuration of the LAST encoding is the one judged (a default one: as the envelope says);
+            # earlier default encodings have no influence on the model's last envelope
+            last_i = len(case["steps"]) - 1
+            hist = glist("HMut" if st[0] == "mut" else
+                         gapp("HEnc", gbool(st[1] == "str"),
+                              gz(obs["zstd_used"] if i == last_i else step_zstd(st)))
+                         for i, st in enumerate(case["steps"]) if st[0] == "mut" or st[1] in ("bytes", "str"))
             return gapp("CSeq", hist, gbytes(obs["envelope"]),
                         gbool(obs["dec_ok"]), gob(obs["pp"]), gob(obs["pd"]), gout(obs["obs"]))
 
     def nontrivial(self, case, obs):
+        if isinstance(obs, dict) and obs.get("skip"):
+            return False
         if case["kind"] in ("sweep", "trunc", "seq"):
             return True
         if case.get("zstd") is not None or case.get("mut", ["none"])[0] != "none":
@@ -805,8 +978,16 @@ class C09(fw.Prop):
             for dk, dv in (o.get("drift", {}) if isinstance(o, dict) else {}).items():
                 df = d.setdefault("diagnostic only, no verdict: " +
                                   {"ref_text": "payload text equals the reference serialisation",
-                                   "ref_frame": "zstd frame equals the reference compressor's bytes"}[dk], {})
+                                   "ref_frame": "zstd frame equals the reference compressor's bytes",
+                                   "sweep_768": "header decoder accepts exactly the 768 (known format, any flags) pairs",
+                                   "str_is_bytes": "to_str equals to_bytes decoded as UTF-8",
+                                   "default_preset": "envelope of a call without configuration agrees with the "
+                                                     "preset EnvelopeConfig.BINARY / TEXT"}[dk], {})
                 df[str(dv)] = df.get(str(dv), 0) + 1
+            if isinstance(o, dict) and o.get("skip"):
+                sk = d.setdefault("skipped (not available in this implementation), no verdict", {})
+                why = o.get("why", "text encoding of a compressed configuration (covered by the str stream)")
+                sk[why] = sk.get(why, 0) + 1
             d.setdefault(key, {})
             ob = o.get("obs", o.get("raised", "-")) if isinstance(o, dict) else "-"
             d[key][ob] = d[key].get(ob, 0) + 1
